@@ -229,6 +229,24 @@ class Shard:
         self.race_props = list(race_props)
 
 
+def crash_in_code_under_test(text):
+    """If `text` is a Go crash report whose panicking goroutine was running a function of
+    tailscale/setec (not of the harness) when it panicked, return a one-line description."""
+    m = re.search(r"^(panic: .*|fatal error: .*)$", text, re.M)
+    if not m:
+        return None
+    # frames after the panic line, up to the first blank line that follows a frame list
+    tail = text[m.start():]
+    frames = re.findall(r"^\s*(\S+)\(.*\)\n\s+(\S+):(\d+)", tail, re.M)
+    for fn, path, line in frames:
+        if fn.startswith(("runtime.", "runtime/", "panic", "golang.org/x/sync/singleflight", "testing.", "sync.", "internal/")):
+            continue
+        if fn.startswith("github.com/tailscale/setec/") and "/verif/" not in path:
+            return "%s in %s (%s:%s)" % (m.group(1)[:200], fn, "/".join(path.split("/")[-3:]), line)
+        return None          # the first real frame is the harness's (or a library's): not a verdict
+    return None
+
+
 def run_shard(bins, sh, tmp, idx, keep_trace=False):
     d = os.path.join(tmp, "s%d" % idx)
     os.makedirs(d, exist_ok=True)
@@ -239,6 +257,7 @@ def run_shard(bins, sh, tmp, idx, keep_trace=False):
     env = dict(os.environ)
     env.setdefault("GOMEMLIMIT", "4GiB")
     racelog = os.path.join(d, "race")
+    crash_line = None
     if sh.binary.endswith("-race"):
         # a detected data race is an observation, not a crash: log it and let the run finish
         env["GORACE"] = "halt_on_error=0 exitcode=0 log_path=" + racelog
@@ -253,7 +272,22 @@ def run_shard(bins, sh, tmp, idx, keep_trace=False):
         import glob as _glob
         raced = any("DATA RACE" in open(rp, errors="replace").read() for rp in _glob.glob(racelog + ".*"))
         if not (raced and os.path.exists(trace) and os.path.getsize(trace) > 0):
-            raise Infra("harness %s failed (%d): %s" % (" ".join(cmd), p.returncode, (p.stderr or p.stdout)[-3000:]))
+            crash = crash_in_code_under_test((p.stderr or "") + "\n" + (p.stdout or ""))
+            if crash:
+                # the process was brought down by a panic raised inside tailscale/setec itself (in a
+                # goroutine of its own, where the harness cannot recover it): an observation - no
+                # statement admits a crash - attributed to the property whose scenario was running.
+                # What was traced up to that point is still judged (minus a torn last line).
+                crash_line = "PROPFAIL * no_crash family=%s the code under test crashed the process: %s (rerun: %s)" % (sh.family, crash, " ".join(cmd[:8]))
+                if os.path.exists(trace):
+                    data = open(trace, "rb").read()
+                    if data and not data.endswith(b"\n"):
+                        data = data[:data.rfind(b"\n") + 1]
+                        open(trace, "wb").write(data)
+                else:
+                    open(trace, "w").close()
+            else:
+                raise Infra("harness %s failed (%d): %s" % (" ".join(cmd), p.returncode, (p.stderr or p.stdout)[-3000:]))
     with open(trace) as f:
         q = run([os.path.join(LEAN, ".lake", "build", "bin", "driver"), sh.driver], stdin=f, timeout=3600)
     if q.returncode != 0:
@@ -270,6 +304,8 @@ def run_shard(bins, sh, tmp, idx, keep_trace=False):
                 pass
         raise Infra("driver %s failed (%d): %s" % (sh.driver, q.returncode, msg))
     out = dict(cmd=cmd, propfail=[], diverge=[], cover={}, summary={}, samples=[], wall=time.time() - t0, stderr=p.stderr[-2000:])
+    if crash_line:
+        out["propfail"].append(crash_line)
     for line in q.stdout.splitlines():
         if line.startswith("PROPFAIL "):
             out["propfail"].append(line)
@@ -360,7 +396,7 @@ def write_replay(pid, payload):
 
 
 def relevant(pid, line):
-    return line.split(" ", 2)[1] == pid
+    return line.split(" ", 2)[1] in (pid, "*")
 
 
 def main():
